@@ -8,6 +8,7 @@ representative each of them holds.  The shape of the constraint system and its c
 are facts about matrices that ark-r1cs-std produces at run time and about ark-groth16; they are observed by the
 check (matrix digests over all input classes and both synthesis modes, prove/verify with the pinned keys), not proved.
 -/
+import Decaf.BuildsCmd
 import Decaf.Props.C03
 
 namespace C15
@@ -30,3 +31,7 @@ theorem public_input_coherent {sr sr' : SR} (h : SRContract sr) (h' : SRContract
   rw [C03.encode_respects_element h h' hr hr' he hc]
 
 end C15
+
+/-! ### the statements for the two shipped routines -/
+instantiate_builds C15.public_input_is_encoding
+instantiate_builds C15.public_input_coherent
